@@ -10,6 +10,7 @@ import Imeta.Model.Png
 import Imeta.Props.C11
 import Imeta.Lemmas.XmpTotal
 import Imeta.Lemmas.ExifWalk
+import Imeta.Lemmas.BmffWalks
 namespace Imeta.C02
 open Imeta
 
@@ -55,6 +56,15 @@ theorem C02_isobmff_loops_bounded {h : Bytes → Bmff.M Unit} (hp : ∀ t, Bmff.
     (s : Bmff.St) (hn : s.chain ≠ []) : Bmff.NPat (Bmff.innerLoop h oe (s.rest.length / 8 + 2)) s :=
   Bmff.innerLoop_total hp hh oe _ s hn (by omega)
 
+
+/-- ISOBMFF item walks over a peeked buffer (readInfe over the iinf payload, readIloc over the iloc entries): the rounds
+the model allows (|buf|/12+1 resp. |buf|/6+1) are never used up — the result is the same for every larger number of
+rounds, because a round that continues has advanced the cursor by at least 12 resp. 6 bytes (an iloc entry with
+extent_count 0 still advances by the entry header).  The loop in the code has no counter: this is what makes it end. -/
+theorem C02_isobmff_item_walks (buf : Bytes) (g : Nat) :
+    (∀ ids, buf.length / 12 + 1 ≤ g → Bmff.infeWalk buf g 0 ids = Bmff.infeWalk buf (buf.length / 12 + 1) 0 ids) ∧
+    (∀ c e x ol, buf.length / 6 + 1 ≤ g → Bmff.ilocWalk c e x buf g 0 ol = Bmff.ilocWalk c e x buf (buf.length / 6 + 1) 0 ol) :=
+  ⟨fun ids h => Bmff.infeWalk_total buf ids g h, fun c e x ol h => Bmff.ilocWalk_total c e x buf ol g h⟩
 
 /-- XMP: ParseXmp of the model ends for every input with the fuel it is given (unread length + 8): the look-ahead loops
 give up after at most 4 resp. 13 windows, every other loop (root search, tags, attributes, array items) consumes at least
